@@ -187,7 +187,7 @@ func generate(r *hxlib.Run, emit func(hxlib.Case)) {
 func main() {
 	hxlib.Main(&hxlib.Harness{
 		Prop:     "C11",
-		Rule:     "three generators, every choice seeded: (a) rt = a query tree built through the API (all 18 operators + invalid ones, and/or/not nesting to depth 4 quick / 6 thorough, widths 0–4, every operand class incl. int64 extremes, textual operands, strings over an alphabet with spaces, quotes, backslashes, parentheses, commas, multi-byte runes; any prefix/orderby/limit/offset) → Check → Print → ParseQuery → Print, with MatchesRecord on 3 harness records in JSON and struct form before and after; (b) gs = sentences of the README grammar (all operator aliases, quoted/escaped/plain words, whitespace variants, not-forms, groups ending the condition list), rendered independently and parsed; every query ParseQuery returns is itself printed and re-parsed; mutated sentences/prints (token drop/dup/swap, unbalanced quotes and parentheses, trailing backslash or multi-byte rune, keywords as keys, byte cuts); (c) raw strings incl. invalid UTF-8 (implementation only). A case is non-trivial if it is a checked query with a where clause (rt), a grammar sentence with a where clause (gs) or an input longer than 6 bytes (parse/lex); distinct by the hash of its op line.",
+		Rule:     "three generators, every choice seeded: (a) rt = a query tree built through the API (all 18 operators + invalid ones, and/or/not nesting to depth 4 quick / 6 thorough, widths 0–4, every operand class incl. int64 extremes, textual operands, strings over an alphabet with spaces, quotes, backslashes, parentheses, commas, multi-byte runes; any prefix/orderby/limit/offset) → Check → Print → ParseQuery → Print, with MatchesRecord on 3 harness records in JSON and struct form before and after; (b) gs = sentences of the README grammar (all operator aliases, quoted/escaped/plain words, whitespace variants, not-forms, groups ending the condition list), rendered independently and parsed; every query ParseQuery returns is itself printed and re-parsed; mutated sentences/prints (token drop/dup/swap, unbalanced quotes and parentheses, trailing backslash or multi-byte rune, keywords as keys, byte cuts); (c) raw strings incl. invalid UTF-8 (implementation only); (d) byte strings — Go strings are byte strings: tokens (keys, prefix, orderby, string and list operands) that combine byte sequences that are not valid UTF-8 (lone continuation bytes, truncated 2-/3-/4-byte sequences, FF/FE/F8, overlong forms incl. overlong backslash / quote / space, CESU-8 surrogates, beyond U+10FFFF, Latin-1) with every escape-worthy character (space, quote, backslash, parentheses, tab, CR, LF): rtb = the API round trip on the implementation under the full monitor (prints identically, byte-exact tokens, same match vector on witness records built from the operand bytes themselves, struct + raw-JSON form, plus the U+FFFD-replaced neighbours) and gs-bytes = grammar sentences with such words in all three word styles (tokens byte-exact); (e) the byte-level Lean model (utf8 decoding as `range` does it, extractSnippets, prepToken, escapeString on arbitrary bytes; no UTF-8 decoding in the driver) against the real code: units / escb / lexb on tokens, escaped tokens, mutated printed queries and decoder-class-directed random bytes. A case is non-trivial if it is a checked query with a where clause (rt), a grammar sentence with a where clause (gs) or an input longer than 6 bytes (parse/lex); distinct by the hash of its op line.",
 		Generate: generate,
 		NewExec:  func(r *hxlib.Run) hxlib.Exec { return exec{r} },
 		Monitor:  monitor,
